@@ -42,6 +42,7 @@ func main() {
 	bad := flag.Float64("bad", 0.03, "share of batchable commands generated in a failing (but proposable) form")
 	fams := flag.String("fams", allFams, "families: k h s l z b(itmap) p(f) j(son)")
 	pairs := flag.Bool("pairs", false, "generate the batchable-pair sweep instead of random logs")
+	hllprobe := flag.Int("hllprobe", 0, "probe: stored bytes of one HyperLogLog key after a flush over this many identical runs")
 	edge := flag.Bool("edge", false, "generate the edge-argument sweep of the batchable commands instead of random logs")
 	keepRaw := flag.Bool("raw", false, "keep the raw engine dump in the note field")
 	flag.Parse()
@@ -55,6 +56,18 @@ func main() {
 	x := &runner{baseNow: (now - now%86400) * sec, keepRaw: *keepRaw}
 	os.MkdirAll(*out, 0o755)
 
+	if *hllprobe > 0 {
+		vals, err := x.hllProbe(*hllprobe)
+		pf := hx.Create(filepath.Join(*out, "hllprobe.out"))
+		if err != nil {
+			pf.Printf("err\t%s\n", err.Error())
+		}
+		for i, v := range vals {
+			pf.Printf("%d\t%s\n", i, v)
+		}
+		pf.Close()
+		return
+	}
 	if *shrink != "" {
 		doShrink(x, *shrink, *out)
 		return
